@@ -1,6 +1,7 @@
 /- Line protocol: one JSON case per input line, one JSON result per output line. -/
 import Driver.Pure
 import Driver.MachineIO
+import Driver.ThreadsIO
 
 open Lean Driver
 
@@ -13,7 +14,7 @@ def handle (line : String) : String :=
     | .ok op =>
       let r := match pureOp op j with
         | some r => some r
-        | none => if op = "machine" then some (opMachine j) else none
+        | none => if op = "machine" then some (opMachine j) else if op = "threads" then some (opThreads j) else none
       match r with
       | some (.ok r) => r.compress
       | some (.error e) => (Json.mkObj [("fatal", e)]).compress
